@@ -343,21 +343,49 @@ def rule_r4_body(body, counts):
 
 
 def rule_r5b_body(body, counts):
-    """R5b: `O.map_or(false, |v| E)` -> match (single-line closure bodies only)."""
-    pat = re.compile(r'(?P<o>[A-Za-z_][\w\.\(\)&]*?)\.map_or\(false, \|(?P<v>\w+)\| ')
-    pos = 0
+    """R5b: closure conversions (definition of Iterator::any / Option::map_or):
+       `E.iter().any(|v| match_wildcard(v, S))`      -> `verif_any_match(E, S)`   (helper proved in contracts/)
+       `RECV.map_or(false, |v| BODY)`                -> `(match RECV { Some(v) => BODY, None => false })`"""
+    pat_any = re.compile(r'([A-Za-z_][\w]*)\s*\.iter\(\)\s*\.any\(\|(\w+)\|\s*match_wildcard\(\2,\s*([^()]+)\)\)')
+    body, n = pat_any.subn(lambda m: 'verif_any_match(%s, %s)' % (m.group(1), m.group(3).strip()), body)
+    if n:
+        counts['R5b'] = counts.get('R5b', 0) + n
     while True:
-        m = pat.search(body, pos)
+        m = re.search(r'\.\s*map_or\(\s*false\s*,\s*\|(\w+)\|', body)
         if not m:
             break
-        # find the opening paren of map_or(
-        open_idx = body.index('(', m.start() + len(m.group('o')) + 1)
+        open_idx = body.index('(', m.start())
         close_idx = _match_brace(body, open_idx)
-        expr = body[m.end():close_idx]
-        new = 'match %s { Some(%s) => %s, None => false }' % (m.group('o'), m.group('v'), expr.strip())
-        body = body[:m.start()] + new + body[close_idx + 1:]
+        expr = body[m.end():close_idx].strip()
+        if expr.startswith('{') and _match_brace(expr, 0) == len(expr) - 1:
+            expr = expr[1:-1].strip()
+        # walk back over the receiver expression
+        toks = [t for t in rustlex.lex(body[:m.start()])]
+        i = len(toks) - 1
+        start = m.start()
+        depth = 0
+        while i >= 0:
+            t = toks[i]
+            if t.kind in ('ws', 'lcom', 'bcom'):
+                i -= 1
+                continue
+            if t.kind == 'p' and t.text in ')]':
+                depth += 1
+            elif t.kind == 'p' and t.text in '([':
+                if depth == 0:
+                    break
+                depth -= 1
+            elif depth == 0 and not (t.kind in ('id', 'num') or (t.kind == 'p' and t.text in '.:?')):
+                break
+            start = t.start
+            i -= 1
+        recv = body[start:m.start()].strip()
+        recv = re.sub(r'\s+', '', recv)
+        if not recv:
+            raise ExtractError('R5b: cannot find map_or receiver')
+        new = '(match %s { Some(%s) => %s, None => false })' % (recv, m.group(1), expr)
+        body = body[:start] + new + body[close_idx + 1:]
         counts['R5b'] = counts.get('R5b', 0) + 1
-        pos = m.start() + len(new)
     return body
 
 
@@ -372,7 +400,16 @@ def rule_time(body, counts):
     return new
 
 
+def rule_r14_body(body, counts):
+    """R14: `for (k, v) in &MAP {` -> `for (k, v) in MAP.iter() {` (definition of IntoIterator for &HashMap / &Vec)."""
+    new, n = re.subn(r'\bfor (\([\w, ]+\)) in &([A-Za-z_][\w\.]*) \{', r'for \1 in \2.iter() {', body)
+    if n:
+        counts['R14'] = counts.get('R14', 0) + n
+    return new
+
+
 RULES_BODY = {
+    'R14': rule_r14_body,
     'R4': rule_r4_body,
     'R5': rule_r5_body,
     'R5b': rule_r5b_body,
